@@ -145,7 +145,7 @@ func runSched(name string) *result {
 		obs := observePop(any(wd.pool.Queue))
 		wd.start(bound)
 		gate := make(chan struct{})
-		wd.submit(body{gate: gate})
+		wd.submitG(body{gate: gate})
 		waitFor(bound, func() bool { return wd.runs[0].Load() == 1 })
 		obs.settled(1)
 		p := parkSubmit(wd.pool)
@@ -196,7 +196,7 @@ func runSched(name string) *result {
 		ok = ok && wd.shutdown(bound) && wd.start(bound) // Shutdown(); Start() back to back
 		if ok {
 			n := obs.hits.Load()
-			wd.submit(body{})
+			wd.submitG(body{})
 			ok = wd.waitZero(bound)
 			obs.settled(n + 1)
 			ok = ok && wd.shutdown(bound)
@@ -217,7 +217,7 @@ func runSched(name string) *result {
 		p := parkHasWork(wd.pool)
 		wd.start(bound)
 		waitChan(p.entered, 100*time.Millisecond)
-		wd.submit(body{})
+		wd.submitG(body{})
 		wd.shutdown(bound)
 		close(p.release)
 		complete := wd.waitComplete(bound)
@@ -236,7 +236,7 @@ func runSched(name string) *result {
 		obs.settled(1)
 		foreignWaiters(wd, 2)
 		n := obs.hits.Load()
-		wd.submit(body{})
+		wd.submitG(body{})
 		ok := wd.waitZero(bound)
 		obs.settled(n + 1)
 		time.Sleep(20 * time.Millisecond)
@@ -248,13 +248,46 @@ func runSched(name string) *result {
 			r.hangFail(wd, wd.hangs[0], map[string]string{"schedule": name, "foreign-waiters": "2"})
 		}
 		r.perTaskOracle(wd, complete)
+	case "reject-restart", "reject-restart-silent":
+		// a Submit on the stopped, completed pool is rejected (it panics with WithPanicOnSubmitAfterShutdown(true) and the
+		// caller recovers, or it returns silently); then the pool is restarted, runs a task and is shut down again: the
+		// rejected call must leave nothing behind (no lock held, counter untouched).
+		wd := newWorldOpt(1, false, name == "reject-restart")
+		defer unpark(wd.pool)
+		obs := observePop(any(wd.pool.Queue))
+		ok := wd.start(bound)
+		obs.settled(1)
+		ok = ok && wd.shutdown(bound) && wd.waitComplete(bound)
+		if ok {
+			if name == "reject-restart" {
+				wd.submitG(body{})
+			} else {
+				wd.submitSilentRejected()
+			}
+			ok = len(wd.hangs) == 0 && wd.start(bound)
+		}
+		if ok {
+			n := obs.hits.Load()
+			wd.submitG(body{})
+			ok = len(wd.hangs) == 0 && wd.waitZero(bound)
+			obs.settled(n + 1)
+			ok = ok && wd.shutdown(bound)
+		}
+		complete := ok && wd.waitComplete(bound)
+		zero := ok && wd.waitZero(shortBound)
+		out = wd.outcome(complete, zero)
+		if len(wd.hangs) > 0 {
+			r.hangFail(wd, wd.hangs[0], map[string]string{"schedule": name})
+		}
+		r.perTaskOracle(wd, complete)
+		r.emitTrace(wd, complete && zero)
 	case "zero-workers":
 		// WithWorkerCount(0), outside the theorems' hypothesis: the accepted task is popped by the dispatcher and never
 		// received; the shutdown "completes" (no worker to wait for), the counter stays at 1.  Expected, not a finding: the
 		// outcome must be the model's (C16_zero_workers_witness).
 		wd := newWorld(0, false)
 		ok := wd.start(bound)
-		wd.submit(body{})
+		wd.submitG(body{})
 		ok = ok && wd.shutdown(bound)
 		complete := ok && wd.waitComplete(bound)
 		waitFor(bound, func() bool { return wd.pool.Queue.Size() == 0 }) // the dispatcher has popped the task
@@ -270,7 +303,7 @@ func runSched(name string) *result {
 		gate1, gate2 := make(chan struct{}), make(chan struct{})
 		ok := wd.start(bound)
 		obs.settled(1)
-		wd.submit(body{gate: gate1})
+		wd.submitG(body{gate: gate1})
 		waitFor(bound, func() bool { return wd.runs[0].Load() == 1 })
 		ok = ok && wd.shutdown(bound)
 		p := parkStart(wd.pool)
@@ -285,7 +318,7 @@ func runSched(name string) *result {
 		n := obs.hits.Load()
 		ok = ok && wd.start(bound) // B
 		obs.settled(n + 1)
-		wd.submit(body{gate: gate2})
+		wd.submitG(body{gate: gate2})
 		waitFor(bound, func() bool { return wd.runs[1].Load() == 1 })
 		ok = ok && wd.shutdown(bound) // B
 		close(p.release)              // A goes on
@@ -337,8 +370,9 @@ func runHammer(line string) *result {
 
 			return r
 		}
-		pool.Start()
-		pool.Shutdown()
+		if !guarded(r, pool, "start", func() { pool.Start() }) || !guarded(r, pool, "shutdown", func() { pool.Shutdown() }) {
+			return r
+		}
 		if !within(bound, func() { pool.Start() }) {
 			return bad("termination", "Start right after Shutdown did not return", classifyPool(pool, "start"))
 		}
@@ -349,7 +383,9 @@ func runHammer(line string) *result {
 					map[string]string{"api": "workerpool.Start", "effect": "restarted-pool-rejects"})
 			}
 		}
-		pool.Shutdown()
+		if !guarded(r, pool, "shutdown", func() { pool.Shutdown() }) {
+			return r
+		}
 		t0 := time.Now()
 		if !withinPool(pool, func() time.Duration { return time.Since(t0) }, bound, pool.ShutdownComplete.Wait) {
 			return bad("termination", "ShutdownComplete.Wait did not return", classifyPool(pool, "complete"))
@@ -386,7 +422,7 @@ func runBusy(r *result, wd *world, c runCfg, hung func(string) *result) *result 
 		gate := make(chan struct{})
 		first := wd.calls
 		for i := 0; i < c.w; i++ {
-			wd.submit(body{gate: gate, gateFirst: true, kids: []body{{}}})
+			wd.submitG(body{gate: gate, gateFirst: true, kids: []body{{}}})
 		}
 		if !waitFor(bound, func() bool {
 			n := 0
@@ -423,9 +459,11 @@ func runBusy(r *result, wd *world, c runCfg, hung func(string) *result) *result 
 }
 
 func waitFor(d time.Duration, cond func() bool) bool {
-	deadline := time.Now().Add(d)
+	deadline := time.Now().Add(eff(d))
 	for !cond() {
 		if time.Now().After(deadline) {
+			hangs.expired(d)
+
 			return false
 		}
 		time.Sleep(200 * time.Microsecond)
